@@ -2,9 +2,9 @@
 # Offline setup: full .vo build of the Coq development and a first build of the harness.
 set -e
 cd "$(dirname "$0")"
-export GOFLAGS=-mod=mod GOPROXY=off GOSUMDB=off GOTOOLCHAIN=local CGO_ENABLED=0
+export GOFLAGS=-mod=mod GOPROXY=off GOSUMDB=off GOTOOLCHAIN=local
 mkdir -p work/bin evidence
 (cd coq && coq_makefile -f _CoqProject -o Makefile >/dev/null && timeout 3000 make -j16)
-cp /repo/go.sum harness/go.sum
+tools/gomod.sh
 (cd harness && go build -tags verif -o ../work/bin/harness .)
 echo setup ok
